@@ -237,7 +237,7 @@ def eigsh_projector(p: csr_array, verbose: bool = True) -> csr_array:
                 eigvecs = eigh_projector(p_np, verbose=verbose)
                 uniq_eigvecs[key] = [eigvecs, [block_label]]
         else:
-            if not np.isclose(p_block[0], 0.0):
+            if np.isclose(p_block[0], 1.0):
                 if "one" in uniq_eigvecs:
                     uniq_eigvecs["one"][1].append(block_label)
                 else:
